@@ -13,7 +13,7 @@ def strip_generics(path):
     i = 0
     n = len(path)
     while i < n:
-        if path.startswith("::<", i):
+        if path.startswith("::<", i) and not path.startswith("::<impl ", i):
             depth = 0
             j = i + 2
             while j < n:
@@ -381,13 +381,17 @@ def render(t, depth=0):
     if k == "str":
         return repr(t.a)
     if k == "call":
-        return "%s(%s)" % (t.a, ", ".join(r(s) for s in t.sub))
+        if t.sub and DEREF_CALLS.match(t.a):
+            return r(t.sub[0])
+        return "%s(%s)" % (short_path(t.a), ", ".join(r(s) for s in t.sub))
+    if k == "try":
+        return "%s?" % r(t.sub[0])
     if k == "field":
         return "%s.%s" % (r(t.sub[0]), t.a)
     if k == "deref":
         return "*%s" % r(t.sub[0])
     if k == "ref":
-        return "&%s" % r(t.sub[0])
+        return r(t.sub[0])
     if k == "cast":
         return "(%s as %s)" % (r(t.sub[0]), t.a)
     if k == "binop":
@@ -395,7 +399,9 @@ def render(t, depth=0):
     if k == "unop":
         return "%s(%s)" % (t.a, r(t.sub[0]))
     if k == "aggr":
-        return "%s{%s}" % (t.a, ", ".join(r(s) for s in t.sub))
+        if t.a.startswith("closure:"):
+            return "{%s}" % t.a.split("::")[-1].strip("{}")
+        return "%s{%s}" % (short_path(t.a), ", ".join(r(s) for s in t.sub))
     if k == "variant":
         return "(%s as %s)" % (r(t.sub[0]), t.a)
     if k == "discr":
@@ -403,10 +409,36 @@ def render(t, depth=0):
     if k == "index":
         return "%s[%s]" % (r(t.sub[0]), r(t.sub[1]) if len(t.sub) > 1 else t.a)
     if k == "phi":
+        if t.a:
+            return "var:%s" % t.a
         return "phi(%s)" % " | ".join(sorted(set(r(s) for s in t.sub)))
     if k == "local":
         return "var:%s" % t.a
     return "?%s" % (t.a or "")
+
+
+DEREF_CALLS = re.compile(
+    r"^(<.* as (core|std)::(ops::Deref|ops::DerefMut|convert::AsRef<.*>|borrow::Borrow<.*>|convert::AsMut<.*>|borrow::BorrowMut<.*>)>::"
+    r"(deref|deref_mut|as_ref|borrow|as_mut|borrow_mut)"
+    r"|(core|std)::(ops::Deref|ops::DerefMut|convert::AsRef|borrow::Borrow)::(deref|deref_mut|as_ref|borrow))$")
+
+_SHORT = [
+    (re.compile(r"^(std|core|alloc)::convert::num::(ptr_try_from_impls::)?<impl (std|core)::convert::TryFrom<\w+> for \w+>::try_from$"), "int::try_from"),
+    (re.compile(r"^<(\w+) as (std|core)::convert::TryFrom<(\w+)>>::try_from$"), "int::try_from"),
+    (re.compile(r"^(std|core)::convert::num::<impl (std|core)::convert::From<\w+> for \w+>::from$"), "int::from"),
+    (re.compile(r"^(std|core)::num::<impl (\w+)>::"), r"\2::"),
+    (re.compile(r"^(std|core)::slice::<impl \[T\]>::"), "slice::"),
+    (re.compile(r"^(std|alloc)::vec::Vec::"), "Vec::"),
+    (re.compile(r"^(std|core)::option::Option::"), "Option::"),
+    (re.compile(r"^(std|core)::result::Result::"), "Result::"),
+]
+
+
+def short_path(p):
+    for rx, rep in _SHORT:
+        if rx.search(p):
+            return rx.sub(rep, p)
+    return p
 
 
 # wrappers through which a value passes unchanged for the purpose of "where does it come from"
@@ -476,7 +508,7 @@ class Prov:
             r = alts[0]
         else:
             # drop trivially-dead initialisers (`_x = const false` drop flags are not interesting)
-            r = T("phi", sub=alts, meta=l)
+            r = T("phi", fn.names.get(l), sub=alts, meta=l)
         if not stack:
             self._memo[l] = r
         return r
@@ -493,7 +525,10 @@ class Prov:
                 else:
                     t = T("deref", sub=[t])
             elif k == "field":
-                if t.kind == "aggr" and t.meta and p["i"] < len(t.sub) and t.meta.get("kind") in ("tuple", "adt", "closure"):
+                if (t.kind == "variant" and t.a == "Continue" and p["i"] == 0 and t.sub[0].kind == "call"
+                        and "::branch" in t.sub[0].a and t.sub[0].sub):
+                    t = T("try", sub=[strip_err(t.sub[0].sub[0])], meta=t.sub[0].meta)
+                elif t.kind == "aggr" and t.meta and p["i"] < len(t.sub) and t.meta.get("kind") in ("tuple", "adt", "closure"):
                     t = t.sub[p["i"]]
                 else:
                     t = T("field", p["name"], sub=[t], meta=p)
@@ -530,7 +565,10 @@ class Prov:
         if k == "use":
             return self.of_operand(rv["a"], depth, stack)
         if k == "ref" or k == "rawptr":
-            return T("ref", sub=[self.of_place(rv["pl"], depth, stack)], meta=rv)
+            inner = self.of_place(rv["pl"], depth, stack)
+            if inner.kind == "deref":
+                return inner.sub[0]
+            return T("ref", sub=[inner], meta=rv)
         if k == "cast":
             inner = self.of_operand(rv["a"], depth, stack)
             kind = rv["kind"]
@@ -570,6 +608,16 @@ class Prov:
         name = callee_of(t)
         args = [self.of_operand(a, depth, stack) for a in t["args"]]
         return T("call", name, sub=args, meta=t)
+
+
+_ERRW = re.compile(r"^(std|core)::(result::Result|option::Option)::(map_err|ok_or|ok_or_else)$")
+
+
+def strip_err(t):
+    """`x.map_err(f)?` succeeds exactly when x does: drop error-mapping adaptors."""
+    while t.kind == "call" and _ERRW.match(t.a) and t.sub:
+        t = t.sub[0]
+    return t
 
 
 def peel(t, transparent=True, refs=True, casts=False):
